@@ -1,11 +1,17 @@
 package olric
 
-import "strings"
+import (
+	"bytes"
+	"strings"
+	"sync"
+	"sync/atomic"
+)
 
-// transportNoise reports whether a message mentions a network-level failure (a member's client was closed because the
-// failure detector flapped under load, a connection was reset, a deadline passed). Such a failure says that membership
-// was not stable, not that an operation has a wrong meaning; protocol-level errors ("ERR syntax error", a wrong sentinel)
-// are NOT noise.
+// transportNoise reports whether a violation message mentions a network-level failure (a member's client was closed
+// because the failure detector flapped under load, a connection was reset, a deadline passed), or whether the failure
+// detector has dropped a member the harness considers alive since the current case obtained its cluster. Such a failure
+// says that membership was not stable, not that an operation has a wrong meaning; protocol-level errors ("ERR syntax
+// error", a wrong sentinel) are NOT noise.
 func transportNoise(s string) bool {
 	for _, p := range []string{"connection refused", "client is closed", "i/o timeout", "connection reset", "deadline exceeded",
 		"broken pipe", "use of closed network connection", ": EOF", "other:EOF", "no route to host", "pool timeout"} {
@@ -13,5 +19,70 @@ func transportNoise(s string) bool {
 			return true
 		}
 	}
-	return false
+	return vFlapsSinceMark() > 0
+}
+
+// vLogSink receives the log lines of every member and cluster client of the harness (level INFO, default verbosity).
+// It watches for two things:
+//   - "Node left: <name>" for a member the harness has neither stopped nor killed: the failure detector dropped a
+//     healthy member because the machine was too busy to answer probes in time. Its partitions are reassigned, with one
+//     replica its data is gone: the precondition of every listed property (stable membership, or only the failures the
+//     harness injected) no longer holds and the case is inconclusive.
+//   - "Failed to fetch data": the iterators have no error result, they log this and end the iteration.
+type vLogSinkT struct {
+	mu          sync.Mutex
+	fetchErrors int64
+	flaps       int64
+	mark        int64
+	alive       map[string]bool
+	flapped     []string
+}
+
+var vLogSink = &vLogSinkT{alive: map[string]bool{}}
+
+func (s *vLogSinkT) Write(p []byte) (int, error) {
+	if bytes.Contains(p, []byte("Failed to fetch data")) {
+		atomic.AddInt64(&s.fetchErrors, 1)
+	}
+	if i := bytes.Index(p, []byte("Node left: ")); i >= 0 {
+		f := strings.Fields(string(p[i+len("Node left: "):]))
+		if len(f) > 0 {
+			s.mu.Lock()
+			if s.alive[f[0]] {
+				s.flaps++
+				s.flapped = append(s.flapped, f[0])
+				if len(s.flapped) > 20 {
+					s.flapped = s.flapped[1:]
+				}
+			}
+			s.mu.Unlock()
+		}
+	}
+	return len(p), nil
+}
+
+func vFetchErrors() int64 { return atomic.LoadInt64(&vLogSink.fetchErrors) }
+
+// vMarkAlive records whether the harness considers the member with that name to be running.
+func vMarkAlive(name string, alive bool) {
+	vLogSink.mu.Lock()
+	if alive {
+		vLogSink.alive[name] = true
+	} else {
+		delete(vLogSink.alive, name)
+	}
+	vLogSink.mu.Unlock()
+}
+
+// vMarkCase: a case has obtained its cluster; flaps are counted from here.
+func vMarkCase() {
+	vLogSink.mu.Lock()
+	vLogSink.mark = vLogSink.flaps
+	vLogSink.mu.Unlock()
+}
+
+func vFlapsSinceMark() int64 {
+	vLogSink.mu.Lock()
+	defer vLogSink.mu.Unlock()
+	return vLogSink.flaps - vLogSink.mark
 }
